@@ -263,9 +263,43 @@ struct ScriptedRunner : public CommandRunner {
   std::set<Edge*> started_once;
 
   string last_ps;
+  // add-only lines for the plan model's dyndep loads: `pg <out0> outs=.. ins=..` for every edge whose
+  // inputs_/outputs_ changed since the previous dump (a dyndep file was loaded), `po ready=<out0,..>` =
+  // the edges with outputs_ready_ (printed when the set changed)
+  std::map<Edge*, string> last_pg; string last_po; bool pg_init = false;
+  // the edges Plan::NodeFinished visits for this edge: for each output in order, its out_edges() in order
+  static string ConsOf(Edge* e) {
+    string c; bool first = true;
+    for (Node* o : e->outputs_)
+      for (Edge* d : o->out_edges()) { if (d->outputs_.empty()) continue; c += (first ? "" : ",") + hex(d->outputs_[0]->path()); first = false; }
+    return first ? "-" : c;
+  }
+  void DumpGraphChanges() {
+    for (Edge* e : state->edges_) {
+      if (e->outputs_.empty()) continue;
+      string g = "outs=";
+      for (size_t i = 0; i < e->outputs_.size(); ++i) g += (i ? "," : "") + hex(e->outputs_[i]->path());
+      g += " ins=";
+      for (size_t i = 0; i < e->inputs_.size(); ++i) g += (i ? "," : "") + hex(e->inputs_[i]->path());
+      if (e->inputs_.empty()) g += "-";
+      g += " cons=" + ConsOf(e);
+      auto it = last_pg.find(e);
+      if (pg_init && (it == last_pg.end() || it->second != g)) ev->push_back("pg " + hex(e->outputs_[0]->path()) + " " + g);
+      last_pg[e] = g;
+    }
+    pg_init = true;
+    vector<string> rs;
+    for (Edge* e : state->edges_) if (!e->outputs_.empty() && e->outputs_ready()) rs.push_back(hex(e->outputs_[0]->path()));
+    std::sort(rs.begin(), rs.end());
+    string po = "po ready=";
+    for (size_t i = 0; i < rs.size(); ++i) po += (i ? "," : "") + rs[i];
+    if (rs.empty()) po += "-";
+    if (po != last_po) { ev->push_back(po); last_po = po; }
+  }
   // the plan's bookkeeping as of now (read-only peek): want map, ready queue, pools, counters
   void DumpPlanState() {
     if (!builder) return;
+    DumpGraphChanges();
     Plan& p = builder->plan_;
     string l = "ps want=";
     vector<string> ws;
@@ -605,6 +639,18 @@ void DumpSnap(State* state, Builder* builder, vector<string>* ev) {
     ev->push_back("snap node " + hex(n->path()) + " dirty=" + (n->dirty() ? "1" : "0") + " mtime=" + std::to_string(n->mtime()) +
                   " exists=" + (n->exists() ? "1" : "0"));
   }
+  // add-only: the out-edges NodeFinished will visit, in its order
+  for (Edge* e : state->edges_) {
+    if (e->outputs_.empty()) continue;
+    string c; bool first = true;
+    for (Node* o : e->outputs_)
+      for (Edge* d : o->out_edges()) { if (d->outputs_.empty()) continue; c += (first ? "" : ",") + hex(d->outputs_[0]->path()); first = false; }
+    ev->push_back("sc " + hex(e->outputs_[0]->path()) + " cons=" + (first ? string("-") : c));
+  }
+  // add-only: dyndep bindings as of now (pending = the file has not been loaded yet)
+  for (Edge* e : state->edges_)
+    if (e->dyndep_ && !e->outputs_.empty())
+      ev->push_back("ddsnap " + hex(e->outputs_[0]->path()) + " dd=" + hex(e->dyndep_->path()) + " pending=" + (e->dyndep_->dyndep_pending() ? "1" : "0"));
   ev->push_back("snap plan wanted=" + std::to_string(builder->plan_.wanted_edges_) + " commands=" + std::to_string(builder->plan_.command_edges_));
 }
 
